@@ -203,10 +203,12 @@ class MacroProgram(ElementProgram):
         if self._last is not None:
             # The indentation of the line the element starts on; when
             # the line holds other text, pad with as many spaces.
-            indent = self._last.rsplit('\n', 1)[-1]
+            # The line break is the one that the line ends with.
+            eol, indent = re.search(
+                r'(\r\n|\r|\n)?([^\r\n]*)\Z', self._last).groups()
             if indent.strip():
                 indent = " " * len(indent)
-            self._whitespace = "\n" + indent
+            self._whitespace = (eol or "\n") + indent
 
         # Set element-local whitespace
         whitespace = self._whitespace
@@ -466,7 +468,7 @@ class MacroProgram(ElementProgram):
 
             if start['namespace'] == TAL:
                 self._last = None
-                self._whitespace = whitespace.lstrip('\n')
+                self._whitespace = whitespace.lstrip('\r\n')
                 whitespace = ""
 
             REPEAT = partial(
